@@ -29,7 +29,8 @@ def setup():
     print(out.strip())
     if not ok:
         print("gen_tables failed"); return 2
-    ok, out = core.lake_build([])
+    mods = ["Simfile", "Simfile.Driver"] + sorted(v["module"] for v in core.PROPS_INDEX.values())
+    ok, out = core.lake_build(mods)
     print(out[-3000:])
     return 0 if ok else 2
 
